@@ -199,7 +199,7 @@ def drive(specs: list[dict[str, Any]], source: str, builds: dict[str, list[str]]
                         w = witness(args, exp, want, got, cfg)
                         w["key"] = key
                         out["mismatches"].append(w)
-                elif len(out["samples"]) < 2 and (evals % 97 == 1):
+                elif len(out["samples"]) < 2 and want[0] == "value" and evals % 89 == 40:
                     out["samples"].append(witness(args, exp, want, got, cfg))
 
         if explicit is not None:
